@@ -268,7 +268,8 @@ def c10_check(text, files, w, module, ignore=()):
                     base = None
                     if d[4] is not None:
                         b = R.subst(d[4], env, T(d[3], path, combo)) if d[4][4] else d[4]
-                        base = '.'.join(list(b[2]) + [b[3] + ''.join(R.iname(a) for a in b[4])])
+                        # golden-pinned spelling (ForwardKinematicsFactor.m): the C++ spelling of the parent with `::` -> `.`
+                        base = R.cpp_name(b).replace('::', '.')
                     exp_files[os.path.join(pkg(path), name + '.m')] = ('class', name, base, d, combo, path)
                     classes_all.append((path, name, d, combo))
                     for m in d[5]:
@@ -310,7 +311,7 @@ def c10_check(text, files, w, module, ignore=()):
                 bad.append(('enum-numbering', '%s: %s, declared %s' % (p, items, list(e[2]))))
         elif e[0] == 'class':
             _, name, base, d, combo, path = e
-            m = re.search(r'classdef (\w+) < ([\w.]+)', t)
+            m = re.search(r'classdef (\w+) < ([^\n]+)', t)
             if not m or m.group(1) != name:
                 bad.append(('classdef-name', p))
                 continue
